@@ -114,9 +114,12 @@ def dyadic_interval(rng, n=None, exact=False):
 
 def pick(rng, n, thorough):
     """indices of the nodes whose kernel evaluation is replayed in Coq (exact rationals with ~53n-bit numerators:
-    all nodes for n <= 10, three per rule above that in the quick tier; the moment oracle always uses all nodes)"""
-    if thorough or n <= 10:
+    quick: all nodes for n <= 10, three per rule above; thorough: all for n <= 20, up to twelve per rule above;
+    the moment oracle always uses all nodes)"""
+    if n <= (20 if thorough else 10):
         return list(range(n))
+    if thorough:
+        return sorted({0, n - 1} | {rng.randrange(n) for _ in range(10)})
     return sorted({0, n - 1, rng.randrange(n)})
 
 
@@ -130,7 +133,7 @@ def run(ctx):
     thorough = ctx.tier == "thorough"
     rng = ctx.rng
     ctx.proofs()
-    reps = 3 if thorough else 1
+    reps = 4 if thorough else 1
     jobs = []     # Coq correspondence checks are queued and evaluated concurrently at the end
 
     def queue(name, ctype, ok, cases, meta, label, chunk, preamble=""):
@@ -205,6 +208,27 @@ def run(ctx):
     ok = ("fun c => let '(s, ps, xs, ws) := c in match (if s then qnwsimp ps else qnwtrap ps) with "
           "| Some (mx, mw) => Qss_close %s mx xs && Qs_relclose %s mw ws | None => false end" % (T12, T12))
     queue("closed_form_tensor", "bool * list (nat * Q * Q) * list (list Q) * list Q", ok, cases, meta, "C08.Model.make_multidim (gridmake / reversed ckron) vs quad._make_multidim_func", 6, "")
+
+    # ================================================================ _ce_util.gridmake / ckron directly (integer data: exact)
+    from quantecon._ce_util import gridmake as ce_gridmake, ckron as ce_ckron
+    gcases_, gmeta_ = [], []
+    for _ in range(25 * reps):
+        d = rng.choice([2, 2, 3])
+        arrs = [np.array([float(rng.randrange(-9, 10)) for _ in range(rng.randrange(1, 6))]) for _ in range(d)]
+        G = ce_gridmake(*arrs)
+        K = ce_ckron(*arrs)
+        inp = {"call": "gridmake/ckron", "arrays": [a.tolist() for a in arrs]}
+        ctx.case(("gridmake", tuple(tuple(a.tolist()) for a in arrs)), nontrivial=True)
+        ctx.count("ce_util:d=%d" % d)
+        eg = np.array([list(t[::-1]) for t in itertools.product(*arrs[::-1])]).reshape(-1, d)
+        ek = np.array([math.prod(t) for t in itertools.product(*arrs)])
+        if not (np.array_equal(G, eg) and np.array_equal(K, ek)):
+            fail("ce_util", "gridmake is not the product grid (first array fastest) or ckron not the Kronecker product", inp, G.tolist())
+        gcases_.append(tup(qlist2(fl2(a.reshape(1, -1))[0:1] if False else [fl(a) for a in arrs]), qlist2(fl2(G)), qlist(fl(K))))
+        gmeta_.append(inp)
+    ok = ("fun c => let '(arrs, G, K) := c in match gridmake arrs with Some M => Qss_eqb M G | None => false end "
+          "&& Qs_eqb (ckron arrs) K")
+    queue("ce_util", "list (list Q) * list (list Q) * list Q", ok, gcases_, gmeta_, "C08.Model.gridmake/ckron vs _ce_util.gridmake/ckron", 30)
 
     # ================================================================ Gauss-Legendre: kernel, affine map, qnwunif, tensor
     kcases, kmeta, acases, ameta, tcases, tmeta, ucases, umeta, rcases, rmeta = [], [], [], [], [], [], [], [], [], []
@@ -410,7 +434,7 @@ def run(ctx):
             ctx.count("qnwbeta")
             for kind, det in check_rule_1d(x, w, 0, 1, mom_beta(a, b, 2 * n - 1), Fraction(1, 10**6), True):
                 fail("beta_" + kind, "qnwbeta: %s" % det, inp, [[float(v) for v in x], [float(v) for v in w]])
-            for i in (pick(rng, n, thorough) if (rep == 0 or n <= 12 or thorough) else []):
+            for i in (pick(rng, n, thorough) if (rep == 0 or n <= 12) else []):
                 bcases.append(tup(natlit(n), qlit(a - 1), qlit(b - 1), qlit(1 - 2 * x[i]), qlit(w[i])))
                 bmeta.append(dict(inp, node=i))
             a = Fraction(rng.randrange(13, 512), 64)
@@ -426,7 +450,7 @@ def run(ctx):
             ctx.count("qnwgamma")
             for kind, det in check_rule_1d(x, w, 0, None, mom_gamma(a, sc, 2 * n - 1), Fraction(1, 10**6), True):
                 fail("gamma_" + kind, "qnwgamma: %s" % det, inp, [[float(v) for v in x], [float(v) for v in w]])
-            for i in pick(rng, n, thorough):
+            for i in (pick(rng, n, thorough) if rep < 2 else []):
                 gcases.append(tup(natlit(n), qlit(a - 1), qlit(x[i] / sc), qlit(w[i])))
                 gmeta.append(dict(inp, node=i))
     ok = "fun c => let '(n, a, b, z, w) := c in node_ok %s %s (jac_node n a b z) w" % (T13, T6)
